@@ -464,10 +464,13 @@ func (p *parser) postfix() Expr {
 			if err := p.expectOp(")"); err != nil {
 				p.fail("%v", err)
 			}
-			if id, ok := x.(*EIdent); ok && (id.Name == "old" || id.Name == "pre") && len(args) == 1 {
+			if id, ok := x.(*EIdent); ok && (id.Name == "old" || id.Name == "pre" || id.Name == "head") && len(args) == 1 {
 				lab := ""
 				if id.Name == "pre" {
 					lab = "loop"
+				}
+				if id.Name == "head" {
+					lab = "head"
 				}
 				x = &EOld{args[0], lab}
 			} else {
